@@ -159,6 +159,28 @@ def run_shard(spec, rep):
                 rep.check("default selectivity is the molar one", abs(mem.get_ideal_selectivity(t, c1, c2) - sm), 0.0, case)
             except Exception as e:
                 rep.violation("valid membrane query raised", case, {"error": repr(e)})
+        rrng = gen.case_rng(PROP + ":replicates", spec["seed"], spec["shard"], index)
+        if rrng.random() < 0.2:
+            # replicate measurements (round 9): one temperature measured twice with different readings, no stated activation
+            # energy - the regression is over ALL experiments. Only the activation energy is judged here ("the nearest
+            # experiment's value" is ambiguous between replicates, so the permeance is not).
+            import attr
+            from pyvaporation.permeance import Permeance
+
+            er, _ = gen.gen_experiments(rrng, c1, rrng.randint(2, 5), False, False)
+            k = rrng.randrange(len(er))
+            twin = attr.evolve(er[k], permeance=Permeance(value=er[k].permeance.value * rrng.uniform(0.5, 2.0), units=er[k].permeance.units))
+            er.insert(rrng.randrange(len(er) + 1), twin)
+            memr = Membrane(name="M", ideal_experiments=IdealExperiments(experiments=er))
+            plr = _plain(memr, c1)
+            cr = {"index": index, "mixture": mdesc, "membrane": gen.describe_membrane(memr), "replicate_of": k}
+            try:
+                e_got = memr.calculate_activation_energy(c1)
+                e_ref = refmodel.regressed_activation_energy([e["T"] for e in plr], [e["value"] for e in plr])
+                rep.count("replicate_temperature_membranes")
+                rep.check("regressed activation energy", abs(e_got - e_ref) / refmodel.R * (1 / 260 - 1 / 420), 1e-9, cr, {"got": e_got, "ref": e_ref})
+            except Exception as e:
+                rep.violation("valid membrane query raised", cr, {"error": repr(e)})
         if route == "direct" and rng.random() < 0.3:
             # the same Membrane OBJECT with its experiments replaced in place (a re-measured data set): answers must follow
             # the new experiments exactly like a freshly built membrane
